@@ -1008,6 +1008,9 @@ fn tie_values(r: &mut Rng, n: usize) {
         "[[1],[[2],[3]]]", "[[1],[[1],[3]]]", "[[2],[\"a\",\"b\"],[1,2]]",
         "{\"nan\":9221120237041090564}", "{\"nan\":0}", "{\"nan\":1.5}", "{\"nan\":-1}", "{\"nan\":18446744073709551616}", "{\"NaN\":null}", "\"nan\"", "[{\"nan\":5},1.0]",
         "[[\"NaN\",1.0]]", "[[\"∞\",\"-∞\"],[{\"nan\":7},\"W\"]]", "[[],[[\"NaN\",1.0]]]", "[[3],\"NaN\"]", "[[1],\"W\"]", "[[2],\"NaN\"]", "[\"NaN\",1.0]", "[[1.0,null]]", "[[null,null]]",
+        "[[3],[1,2]]", "[[2,2],[1.5]]", "[[0,5],[1]]", "[[0,5],[]]", "[[2],[1,2],[3]]", "[[2],[7],[3,4]]", "[[2],[3,4],{\"label\":\"x\"}]", "[[3],[3,4],{\"label\":\"x\"}]", "[[1],[5.0],[{\"b\":1}]]",
+        "[[1]]", "[[{\"b\":1}]]", "[[1],[5],[1]]", "[[2],\"abc\"]", "[[3],\"abc\"]", "[[],\"ab\"]", "[[1,1],[[1.0,2.0]]]", "[[2],[[1.0,2.0]]]", "[[2],{\"empty_boxes\":[]}]", "[[2,0],{\"empty_boxes\":[]}]",
+        "[[1],[{\"b\":[[3],[1,2]]}]]", "{\"b\":[[2],[1]]}", "[[1,2,3],[1,2,3,4,5,6]]", "[[1,2,3],[1,2,3,4,5]]",
         "[[1,2],[[1,2],[3,4]]]", "{\"b\":{\"nan\":3}}", "[{\"b\":\"NaN\"}]", "{\"nan\":3,\"x\":1}", "{\"b\":1,\"nan\":3}",
     ];
     for (k, t) in extra.iter().enumerate() {
